@@ -180,6 +180,46 @@ func (n *zzFixtureNode) zzFixtureLoop(ch chan int) {
 	}
 }
 `, "zzFixtureLoop"},
+	{"R235", "zz_fixture_r235.go", `package bpmn
+
+func zzFixtureFull(s []int) bool {
+	if len(s) == cap(s) {
+		return true
+	}
+	return false
+}
+`, "zzFixtureFull"},
+	{"R244", "schema/zz_fixture_r244.go", `package schema
+
+func zzFixtureHasIncoming(node FlowNodeInterface) bool {
+	incomings := node.Incomings()
+	return incomings != nil && *incomings != nil
+}
+`, "zzFixtureHasIncoming"},
+	{"R245", "pkg/data/zz_fixture_r245.go", `package data
+
+import "sync"
+
+type zzFixtureStore struct {
+	mu sync.RWMutex
+	m  map[string]int
+}
+
+func (s *zzFixtureStore) zzFixtureGet(k string) int {
+	s.mu.RLock()
+	defer s.mu.RUnlock()
+	return s.m[k]
+}
+
+func (s *zzFixtureStore) zzFixtureSum() (n int) {
+	s.mu.RLock()
+	defer s.mu.RUnlock()
+	for k := range s.m {
+		n += s.zzFixtureGet(k)
+	}
+	return
+}
+`, "zzFixtureSum"},
 }
 
 // checkFixtures runs the zero-expected rules among ids on the fixture program and returns one obligation per rule.
